@@ -76,8 +76,12 @@ func (s *Scratch) Write(rel string, data []byte) {
 
 // CopyDriver copies the Go files of /verif/drivers/<name> to <scratch>/<dst> and the shared
 // reporting package to <scratch>/drv.
-func (s *Scratch) CopyDriver(name, dst string) {
-	for _, pair := range [][2]string{{name, dst}, {"drv", "drv"}} {
+func (s *Scratch) CopyDriver(name, dst string, extras ...string) {
+	pairs := [][2]string{{name, dst}, {"drv", "drv"}}
+	for _, e := range extras {
+		pairs = append(pairs, [2]string{e, e})
+	}
+	for _, pair := range pairs {
 		src := filepath.Join(s.Home, "drivers", pair[0])
 		ents, err := os.ReadDir(src)
 		if err != nil {
